@@ -116,6 +116,16 @@ CHECKS = {
        "INCLUDE, IMPORT, submodules, % chains. Known findings: C05:rename-lost-diamond, C05:private-reexport.",
   technique="Rocq proof over a transcription of the resolution functions (accessibility invariant for all programs; fragment correctness; refutation witnesses) + differential with generated ground truth",
   design="4/C05"),
+ "C06": dict(
+  text="Coq theorems (C06/Props.v): for every line and every name of identifier characters the occurrence scan finds (a,b) iff [a,b) is a whole "
+       "identifier equal to the name up to letter case (every one, nothing else, each spanning exactly the identifier); the spans are ascending and "
+       "disjoint, also for the NAME_REGEX the code compiles (template regenerated from the source; generic finditer lemma), and the generated pattern "
+       "agrees with the direct scan on a bounded exhaustive domain. Which candidate binds to the entity is re-resolved per hit (C05); that part, "
+       "references from every occurrence, documentHighlight ranges and rename (edits applied, fresh server, references again) are checked against "
+       "the generator's ground truth.",
+  note="Partial. Trusted: Coq kernel, vm_compute, regex translator + engine fidelity, C05 generator. Binding is differential only.",
+  technique="Rocq proof (scan = set of whole-identifier occurrences, both directions; disjointness) over a pattern regenerated by a translator + end-to-end differential incl. applying renames",
+  design="4/C06"),
 }
 NOT_YET = "not yet built in this round; see DESIGN.md section 8 (build order)"
 
